@@ -11,7 +11,7 @@ MANIFEST_ENTRY = dict(engine="Chain", design="§4 C01",
 def run(c):
     quick = c.tier == "quick"
     chainrun.run_family(c, "C01", "C01", nscen=24 if quick else 800, maxlen=15 if quick else 29,
-                        followers=1 if quick else 2)
+                        followers=2)
 
 
 def replay(path, quiet=False):
